@@ -10,6 +10,7 @@ import (
 	"sort"
 	"strings"
 	"testing"
+	"time"
 
 	"github.com/dgraph-io/badger/v4"
 	"pgregory.net/rapid"
@@ -267,9 +268,29 @@ func execOp(h *WHub, op Op) error {
 		// batch is rejected as a whole
 		es := append([]*kit.Ent{}, op.Ents...)
 		bad := &kit.Ent{ID: h.P[0] + ":bad", Props: map[string]any{}, Refs: map[string]any{h.P[0] + ":r0": []any{nil}}}
+		why := "carries a null reference"
+		if op.N == 1 {
+			// an identifier longer than the storage engine accepts as a key (65000 bytes)
+			bad.Refs = map[string]any{h.P[0] + ":r0": h.P[0] + ":" + strings.Repeat("x", 66000)}
+			why = "refers to an identifier of 66000 bytes"
+		}
 		es = append(es, bad)
 		if err := h.StoreBatch(op.DS, es, "store"); err == nil {
-			return fmt.Errorf("REJECTED-BATCH-ACCEPTED a batch whose last element carries a null reference was stored in %s", op.DS)
+			return fmt.Errorf("REJECTED-BATCH-ACCEPTED a batch whose last element %s was stored in %s", why, op.DS)
+		}
+		// the refusal leaves the hub able to write: a batch that changes nothing (the latest version of
+		// some entity again) goes through the same locks as any other
+		if cur, err := h.Latest(op.DS, nil); err == nil && len(cur) > 0 {
+			done := make(chan error, 1)
+			go func() { done <- h.StoreBatch(op.DS, cur[:1], "store") }()
+			select {
+			case err := <-done:
+				if err != nil {
+					return fmt.Errorf("WRITE-AFTER-REJECTED-BATCH storing the unchanged latest version of %s in %s failed: %w", cur[0].ID, op.DS, err)
+				}
+			case <-time.After(20 * time.Second):
+				return fmt.Errorf("WRITER-BLOCKED after a batch whose last element %s was refused, a write to %s did not return within 20s: the refused batch left a lock behind, every later writer hangs", why, op.DS)
+			}
 		}
 	case "token":
 		if err := h.Store.StoreObject(server.JobDataIndex, op.Name, map[string]any{"id": op.Name, "token": fmt.Sprint(op.N)}); err != nil {
